@@ -463,12 +463,13 @@ def project(svg_text, vb=(0, 0, 16, 16), dense=False, view=None):
                         if fill is None:      # a gradient without stops paints nothing
                             continue
                 layers.append({"polys": polys, "rule": ch.attrib.get("fill-rule", "nonzero"),
+                               "pb": [[min(pl[0::2]), min(pl[1::2]), max(pl[0::2]), max(pl[1::2])] for pl in polys],
                                "paint": fill, "e": e, "grp": grp, "tg": tg,
                                "bb": [min(xs), min(ys), max(xs), max(ys)]})
             else:
                 notes.append("unexpected element <%s> in output" % t)
                 layers.append({"polys": [], "rule": "nonzero", "paint": "unexpected:" + t, "e": 0,
-                               "grp": grp, "bb": [0, 0, 0, 0], "tg": []})
+                               "grp": grp, "bb": [0, 0, 0, 0], "tg": [], "pb": []})
 
     walk(root, [])
     return {"layers": layers, "notes": notes}
